@@ -195,10 +195,18 @@ func (lexer *Lexer) Linenum() int {
 
 func (lex *Lexer) Reset() {
 	lex.stream = nil
+	lex.next = nil
 	lex.tokens = lex.tokens[:0]
 	lex.state = LexerNormal
 	lex.linenum = 1
+	// forget everything the previous text left behind: how a text is
+	// read must not depend on what was lexed before it.
+	lex.prevrune = 0
 	lex.preBuiltinRune = 0
+	lex.prevToken = Token{}
+	lex.prevPrevToken = Token{}
+	lex.priori = 0
+	lex.priorRune = [20]rune{}
 	lex.buffer.Reset()
 }
 
